@@ -603,6 +603,26 @@ def run(chk):
 
     runtime_rules(chk, P, "C01.S2.runtime")
 
+    def ambient_runtime_is_live():
+        """emit! without `rt:` goes through runtime::shared(): it must read the slot afresh on every call (exactly SHARED.get()), so an
+        event emitted after initialisation uses the installed runtime even if something looked at the runtime before."""
+        RT = "emit_core::runtime::"
+        out = []
+        for fn, static in (("shared", "SHARED"), ("internal", "INTERNAL")):
+            if not P.has_body(RT + fn):
+                if chk._overlay:
+                    continue
+                raise mir.AnchorMissing(RT + fn)
+            b = P.body(RT + fn)
+            stat = {str(v) for k, v in common.roots(b.origin(0)) if k == "const"}
+            g = [c for c in [x for y in [b] + P.closures_of(b) for x in y.calls(normal_only=True)]]
+            if len(g) != 1 or g[0].callee.get("name") != "get" or not any(x.endswith("runtime::" + static) for x in stat):
+                return False, ("runtime::%s() is not exactly %s.get() (calls: %s): a cached or otherwise indirect read can keep handing out the "
+                               "empty runtime after the slot has been initialised" % (fn, static, [c.callee.get("name") for c in g])), [], b.span
+            out.append(b.span)
+        return True, "", out
+    chk.ob("C01.S2.runtime:ambient-is-live", "the ambient runtime accessor reads its slot on every call", ambient_runtime_is_live)
+
     # macro entry points
     def private_emit(key):
         def f():
